@@ -230,11 +230,57 @@ static void recycle_prog()
     pmc_outcome("victims=%d reused=%d", victims, reused);
 }
 
+// a thread object (and its stack) recycled from a task of stack-size class X must not be handed to a task
+// of another class Y: every task runs on a stack of the size configured for its own class
+static void recycle_classes_prog()
+{
+    static St s;
+    s = St{};
+    g = &s;
+    int x = pmc_choose(3, 0), y = pmc_choose(3, 0);
+    int yields_between = pmc_choose(2, 0) * 2;
+    static long real_size[2], reported[2];
+    static int ran;
+    real_size[0] = real_size[1] = reported[0] = reported[1] = ran = 0;
+    rt::config c;
+    c.workers = pmc_choose(2, 0) + 1;
+    // distinct sizes for all classes (in this build small and medium default to the same 128 KiB, which
+    // would make the medium branch of the recycling code unreachable)
+    c.extra = {"pika.thread_queue.max_terminated_threads=0", "pika.stacks.medium_size=0x40000"};
+    rt::start(c);
+    static const pika::execution::thread_stacksize cls[3] = {pika::execution::thread_stacksize::small_, pika::execution::thread_stacksize::medium, pika::execution::thread_stacksize::large};
+    static const char* key[3] = {"pika.stacks.small_size", "pika.stacks.medium_size", "pika.stacks.large_size"};
+    long configured[2] = {std::stol(pika::detail::get_config_entry(key[x], std::string("0")), nullptr, 0), std::stol(pika::detail::get_config_entry(key[y], std::string("0")), nullptr, 0)};
+    rt::spawn([&, x, y, yields_between] {
+        for (int k = 0; k < 2; ++k)
+        {
+            auto sched = rt::ex::with_stacksize(rt::ex::thread_pool_scheduler{}, cls[k == 0 ? x : y]);
+            rt::tt::sync_wait(rt::ex::schedule(sched) | rt::ex::then([k] {
+                char *lo, *hi;
+                stack_range(lo, hi);
+                real_size[k] = (long) (hi - lo);
+                reported[k] = (long) pika::threads::detail::get_self_stacksize();
+                volatile char probe = 0;
+                PMC_ASSERT((char*) &probe >= lo && (char*) &probe < hi, "stack-range", "a local variable of the task lies outside the stack its thread object describes");
+                ++ran;
+            }));
+            if (k == 0) for (int i = 0; i < yields_between; ++i) pika::this_thread::yield();    // the worker recycles the terminated object
+        }
+        ++g->finished;
+    });
+    rt::stop();
+    PMC_ASSERT(s.finished == 1 && ran == 2, "task-lost", "%d of 2 tasks ran", ran);
+    for (int k = 0; k < 2; ++k)
+        PMC_ASSERT(real_size[k] >= configured[k] && reported[k] == configured[k], "wrong-stack-size", "task %d of stack class %d runs on a stack of %ld bytes (reports %ld), configured for its class: %ld", k, k == 0 ? x : y, real_size[k], reported[k], configured[k]);
+    pmc_outcome("x=%d y=%d", x, y);
+}
+
 int main(int argc, char** argv)
 {
     static const char* sites = "thread_data::(set_state_tagged|restore_state|set_state|rebind|init)|set_thread_state|set_active_state|scheduling_loop|recycle_thread|cleanup_terminated|create_thread_object|interrupt_thread";
     static const char* focus = "F-addr: whole thread_data of every task; F-site (rmw, cas): state transitions, scheduling_loop, recycle/cleanup of thread objects, interrupt_thread";
     static const pmc_spec specs[] = {
+        {"recycle_across_stack_classes", recycle_classes_prog, 0, 1, 0.05, 0.05, 1, focus, sites, "rc"},
         {"canaries_small_2", canaries_prog<2, 0>, 1, 2, 0.3, 0.25, 1, focus, sites, "rc"},
         {"canaries_medium_2", canaries_prog<2, 1>, 1, 1, 0.1, 0.1, 1, focus, sites, "rc"},
         {"canaries_large_2", canaries_prog<2, 2>, 0, 1, 0.05, 0.1, 1, focus, sites, "rc"},
